@@ -269,8 +269,48 @@ func c15Scenarios() []c15Scenario {
 		}},
 		{"values", "int-keyed map on the command line", parse(d, "--keyed", "20:b", "--keyed", "3:a", "--keyed=20:c", "--switches", "on:true", "--switches=off:false")},
 		{"values", "map option on the command line", parse(d, "-m", "b:2", "-m", "a:1", "-m", "b:3", "--names=k:v", "--names=j:w")},
+		{"values", "two groups added with AddGroup that declare the same names", func() string {
+			type g1 struct {
+				Dup  string `long:"dup" short:"d"`
+				Only int    `long:"only-one"`
+			}
+			type g2 struct {
+				Dup   string `long:"dup" short:"d"`
+				Other int    `long:"only-two"`
+			}
+			a, b2 := &g1{}, &g2{}
+			p := flags.NewNamedParser("app", flags.None)
+			p.AddGroup("First", "", a)
+			p.AddGroup("Second", "", b2)
+			rest, err := p.ParseArgs([]string{"--dup=x", "-d", "y", "--only-one=1", "--only-two=2"})
+			return fmt.Sprintf("%s|%q|%+v|%+v", errText(err), rest, *a, *b2)
+		}},
+		{"repeat", "man page, help and INI output after one parse and after three parses on the same parser", func() string {
+			b := rd.BuildTags()
+			b.Parser.Options = flags.HelpFlag | flags.PassDoubleDash
+			show := func() string {
+				var man, help, ini bytes.Buffer
+				b.Parser.WriteManPage(&man)
+				b.Parser.WriteHelp(&help)
+				flags.NewIniParser(b.Parser).Write(&ini, flags.IniIncludeDefaults|flags.IniIncludeComments)
+				return man.String() + "\x01" + help.String() + "\x01" + ini.String()
+			}
+			argv := []string{"--ccc=c", "-a", "a", "--bbb=1", "add"}
+			_, err1 := b.Parser.ParseArgs(argv)
+			once := show()
+			b.Parser.ParseArgs(argv)
+			_, err3 := b.Parser.ParseArgs(argv)
+			thrice := show()
+			if once != thrice || errText(err1) != errText(err3) {
+				return c15FailMark + "after one parse:\n" + once + "\nafter three parses:\n" + thrice
+			}
+			return errText(err1) + "|" + once
+		}},
 	}
 }
+
+// c15FailMark: a scenario that compares two observations of its own (the same parser asked twice) reports a difference with this prefix.
+const c15FailMark = "\x00DIFFERS-ON-REPETITION|"
 
 func init() {
 	var scen []c15Scenario
@@ -309,6 +349,10 @@ func init() {
 			return map[string]interface{}{"scenario": sc.family + ": " + sc.name, "mode": mode, "sites_with_a_non-identity_order": trace}
 		})
 		c.Outcome(fmt.Sprint(si), obs)
+		if strings.HasPrefix(obs, c15FailMark) {
+			c.Fail("differs-on-repetition|"+sc.family+"|"+sc.name, clip(obs[len(c15FailMark):]))
+			return
+		}
 		{
 			// the schedule tree: one state per (scenario, order vector); one transition from the vector without its last deviation
 			ch := c.ChoiceList()
@@ -362,7 +406,7 @@ func init() {
 			}
 			return 3
 		},
-		Rule: "29 scenarios in 7 families (INI read with one option set from 2-3 sections incl. a case-variant section name, a map option in two sections, two faulty sections, two and three unknown sections, unconvertible values in two sections, empty unknown sections, int-keyed and bool-valued maps, as-defaults with mixed quoting, most followed by Write; help with pre-populated / command-line map options (string-, int-keyed and bool-valued maps); man page; " +
+		Rule: "33 scenarios in 8 families (two groups handed over with AddGroup that declare the same option names; man page, help and INI output of one parser after one and after three parses of the same line; INI read with one option set from 2-3 sections incl. a case-variant section name, a map option in two sections, two faulty sections, two and three unknown sections, unconvertible values in two sections, empty unknown sections, int-keyed and bool-valued maps, as-defaults with mixed quoting, most followed by Write; help with pre-populated / command-line map options (string-, int-keyed and bool-valued maps); man page; " +
 			"INI write of 3-key maps under two IniOptions sets; completion of -, --, --p, in a command, of command names; ErrRequired with three missing options, ErrCommandRequired, ErrUnknownCommand; map values from the command line) x every iteration order at every map iteration of the library: " +
 			"the sources of /repo are type-checked at check time and every range over a map and every reflect MapKeys call is rewritten (go build -overlay) to ask a hook for the order; each position of each order is a deviation point (Lehmer code, 0 = canonical order) and the explorer enumerates every combination of <= 3 (quick) / <= 4 (thorough) deviations over the whole execution, which contains all n! orders of any single site with n <= 3 keys and all pairs of single displacements across sites; " +
 			"oracle: every execution of a scenario observes byte-identical output, error text and values; plus 6 free-running repetitions per scenario with the runtime's own order (sampling, only a cross-check that the seam misses nothing); " +
